@@ -1,12 +1,17 @@
 package main
 
 import (
+	_ "google.golang.org/protobuf/internal/testprotos/conformance"
+	"google.golang.org/protobuf/reflect/protoregistry"
+	"google.golang.org/protobuf/runtime/protoiface"
+	"google.golang.org/protobuf/encoding/protowire"
 	"fmt"
 	"strings"
 
 	vh "google.golang.org/protobuf/internal/zz_verif_vh"
 	"google.golang.org/protobuf/proto"
 	"google.golang.org/protobuf/reflect/protoreflect"
+	"google.golang.org/protobuf/types/dynamicpb"
 )
 
 // ---------- C11 / C12 / C15 / C28: reflection operation histories ----------
@@ -32,6 +37,19 @@ func runOps(c *C) {
 	c.R.Rule = "operation histories of length <= 40 from the empty message over about 40 corpus root types x {generated (open/hybrid/opaque), dynamicpb}: Set (scalars incl. zero values, bytes, whole submessages, oneof members, extensions), Clear, Mutable, list Append/Set/Truncate, map Set/Clear, SetUnknown, Reset, Unmarshal (non-merge, valid and corrupted input). After every step: reflection snapshot vs the Lean model's state; Has == populated-in-Range; Get of unset == default/empty read-only; at most one populated member per oneof and WhichOneof names it. C12 additionally: for every oneof of every root type and every ordered pair of distinct members, binary concatenation (last wins, both lazy modes), text concatenation and merged JSON objects (must be rejected), exhaustive over the pairs with random values. Non-trivial = history reaches a message with >= 2 populated fields; distinct by final snapshot."
 	rs := roots(c)
 	per := c.N(12, 500)
+	if c.Prop == "C12" {
+		// oneofs with members whose JSON form can be null (google.protobuf.NullValue, google.protobuf.Value): only
+		// for the two-member decoding stream
+		for _, n := range []string{"protobuf_test_messages.proto3.TestAllTypesProto3", "protobuf_test_messages.proto2.TestAllTypesProto2"} {
+			if mt, err := protoregistry.GlobalTypes.FindMessageByName(protoreflect.FullName(n)); err == nil {
+				xr := &Root{Name: n, MT: mt, DT: dynamicpb.NewMessageType(mt.Descriptor())}
+				for k := 0; k < c.N(2, 20) && !c.Failed(); k++ {
+					oneofDecodeCases(c, xr, false)
+					oneofDecodeCases(c, xr, true)
+				}
+			}
+		}
+	}
 	for _, r := range rs {
 		r.Flat.Send(c)
 		if c.Prop == "C12" {
@@ -220,10 +238,18 @@ func history(c *C, r *Root, dyn bool) {
 				b, _ = mutateWire(c, b)
 			}
 			lazy := c.Rand.Intn(2) == 0
-			uerr := unm(lazy).Unmarshal(b, m.Interface())
+			var uerr error
+			entry := "Unmarshal"
+			if c.Rand.Intn(3) == 0 { // the third exported entry point
+				entry = "UnmarshalState"
+				_, uerr = unm(lazy).UnmarshalState(protoiface.UnmarshalInput{Buf: b, Message: m})
+			} else {
+				uerr = unm(lazy).Unmarshal(b, m.Interface())
+			}
+			_ = entry
 			fresh := mt.New()
 			ferr := unm(false).Unmarshal(b, fresh.Interface())
-			trace = append(trace, fmt.Sprintf("unmarshal(lazy=%v) %s", lazy, vh.Hex(b)))
+			trace = append(trace, fmt.Sprintf("unmarshal(lazy=%v) %s", lazy, vh.Hex(b))+map[bool]string{true: " (UnmarshalState)", false: ""}[entry == "UnmarshalState"])
 			in["ops"] = trace
 			c.Check((uerr == nil) == (ferr == nil), fmt.Sprintf("Unmarshal into a used message: err=%v, into a fresh one: err=%v", uerr, ferr), in, "")
 			// half of the lazy decodes are left UNOBSERVED (no Equal, no snapshot: either would expand the deferred
@@ -267,10 +293,60 @@ func history(c *C, r *Root, dyn bool) {
 		}
 		c.Hist("op:" + strings.SplitN(op, " ", 2)[0])
 	}
+	if c.Prop == "C11" {
+		wirePresence(c, r, m, in)
+	}
 	c.Hist("family:" + family(dyn))
 	c.Case(r.Name+state, maxPop >= 2)
 	if len(trace) > 3 && len(trace) < 9 {
 		c.Sample(map[string]any{"type": r.Name, "family": family(dyn), "ops": trace})
+	}
+}
+
+// storedEmptySig classifies the known finding "a stored but empty composite is handed out writable by Get":
+// dynamicpb messages (any list/map field) and extension fields of generated messages keep a present-but-empty
+// list/map object (left by Mutable without an append, by emptying, or by a zero-length packed record); Has
+// reports false for it, yet Get returns that stored, valid, writable object instead of the read-only empty one.
+// Regular list/map fields of generated messages are NOT covered by the signature: they honour the contract.
+func storedEmptySig(m protoreflect.Message, fd protoreflect.FieldDescriptor) string {
+	if _, dyn := m.Interface().(*dynamicpb.Message); dyn || fd.IsExtension() {
+		return "stored-empty-composite-get-writable"
+	}
+	return ""
+}
+
+// wirePresence: the encoding of m carries a record for a singular non-message field exactly when Has reports it
+// (so implicit-presence zero values are never encoded and explicit presence — even of a zero value — is), and
+// the presence of every field survives the binary round trip.
+func wirePresence(c *C, r *Root, m protoreflect.Message, in map[string]any) {
+	b, err := partialDet.Marshal(m.Interface())
+	if err != nil {
+		return
+	}
+	onWire := map[protowire.Number]bool{}
+	for rest := b; len(rest) > 0; {
+		num, _, n := protowire.ConsumeField(rest)
+		if n < 0 {
+			return
+		}
+		onWire[num] = true
+		rest = rest[n:]
+	}
+	in2 := map[string]any{"type": in["type"], "family": in["family"], "ops": in["ops"], "bytes": vh.Hex(b)}
+	fds := m.Descriptor().Fields()
+	for i := 0; i < fds.Len(); i++ {
+		fd := fds.Get(i)
+		if fd.IsList() || fd.IsMap() || fd.Message() != nil {
+			continue
+		}
+		c.Check(onWire[fd.Number()] == m.Has(fd), fmt.Sprintf("field %s: Has=%v but a record with its number is on the wire: %v", fd.Name(), m.Has(fd), onWire[fd.Number()]), in2, "")
+	}
+	back := m.New()
+	if unm(false).Unmarshal(b, back.Interface()) == nil {
+		for i := 0; i < fds.Len(); i++ {
+			fd := fds.Get(i)
+			c.Check(back.Has(fd) == m.Has(fd), fmt.Sprintf("field %s: Has=%v before and %v after the binary round trip", fd.Name(), m.Has(fd), back.Has(fd)), in2, "")
+		}
 	}
 }
 
@@ -290,8 +366,15 @@ func contract(c *C, r *Root, m protoreflect.Message, fds []protoreflect.FieldDes
 		switch {
 		case fd.IsList():
 			ok = c.Check(has == (v.List().Len() > 0), fmt.Sprintf("list %s: Has=%v len=%d", fd.Name(), has, v.List().Len()), in, "") && ok
+			if !has && c.Prop == "C28" {
+				// an unpopulated list field (never set, cleared, or emptied again) yields the empty READ-ONLY list
+				ok = c.Check(!v.List().IsValid(), fmt.Sprintf("list %s is unpopulated but Get returns a valid (writable) list", fd.Name()), in, storedEmptySig(m, fd)) && ok
+			}
 		case fd.IsMap():
 			ok = c.Check(has == (v.Map().Len() > 0), fmt.Sprintf("map %s: Has=%v len=%d", fd.Name(), has, v.Map().Len()), in, "") && ok
+			if !has && c.Prop == "C28" {
+				ok = c.Check(!v.Map().IsValid(), fmt.Sprintf("map %s is unpopulated but Get returns a valid (writable) map", fd.Name()), in, storedEmptySig(m, fd)) && ok
+			}
 		case fd.Message() != nil:
 			if !has {
 				ok = c.Check(!v.Message().IsValid() || isEmptyRO(v.Message()), fmt.Sprintf("unset message field %s: Get is not an empty read-only message", fd.Name()), in, "") && ok
